@@ -13,6 +13,7 @@ message names old type, new type and the mutated node; the translation changes; 
 checker reports a NEW definite error; javac rejects the Java translation.  When nothing is
 reported: empty diff and byte-identical translation.
 """
+import os
 import pickle
 import re
 
@@ -317,9 +318,15 @@ def run(tier, seed, jobs):
     samples = []
     plans = []
     cap = 400 if tier == 'quick' else 1500
-    for configs, policies, bound, nslices, full in plan(tier):
+    from mc import progfam
+    # hand-built family (mc/progfam.py): the complete overwriting tree of every (core / thorough: every) program
+    fam = [(progfam.family_configs(pipeline.LANGS, 'all' if tier == 'thorough' else 'mini'), ['first'], 0, 1, True, 12)]
+    only = os.environ.get('VERIF_C04_ONLY')
+    for part in fam + ([] if only == 'family' else plan(tier)):
+        configs, policies, bound, nslices, full = part[:5]
+        chunk = part[5] if len(part) > 5 else None
         params = {'full_expansion': full, 'leaf_cap': cap}
-        tot = explore.explore(configs, policies, bound, SPEC, params, jobs, seed, nslices)
+        tot = explore.explore(configs, policies, bound, SPEC, params, jobs, seed, nslices, chunk=chunk)
         execs += tot.execs
         trans += tot.transitions
         states |= tot.states
